@@ -984,6 +984,8 @@ def _make_rule(rule):
         if 'val' in rule and (val is None or val[1] != rule['val']):
             return 0
         if S.rng.random() < rule.get('p', 0.5):
+            if rule.get('sleep'):
+                return ('sleep', rule['sleep'])      # the thread is descheduled for that much virtual time at this point
             return rule.get('k', 60)
         return 0
     return r
